@@ -393,6 +393,10 @@ fn main() {
             }
         }
     }
+    // parsing is a function of its input alone: right after every hostile input a fixed valid string is
+    // parsed on the same thread and must still round-trip (state carried from one call to the next)
+    let canon = strings.first().cloned().unwrap_or_default();
+    let canon_v1 = v1[0].clone();
     for (i, (parser, kind, input)) in hostile.iter().enumerate() {
         if i % 200 == 0 {
             writeln!(f, "{}", json!({"k": "reset", "id": 100000 + i})).unwrap();
@@ -409,8 +413,13 @@ fn main() {
             Ok(Ok(v)) => (false, "ok", v),
         };
         max_peak = max_peak.max(peak);
+        let after_ok = catch_unwind(AssertUnwindSafe(|| {
+            (canon.is_empty() || Machine::from_str(&canon).map(|m| m.serialize() == canon).unwrap_or(false))
+                && parse_v1_machine(&canon_v1).is_ok()
+        }))
+        .unwrap_or(false);
         writeln!(f, "{}", json!({"k": "hostile", "parser": parser, "kind": kind, "len": input.len(), "result": result, "budget": budget,
-                                 "revalidates": revalidates, "panic": panic, "peak": peak})).unwrap();
+                                 "revalidates": revalidates, "panic": panic, "peak": peak, "after_ok": after_ok})).unwrap();
         n_hostile += 1;
     }
     f.flush().unwrap();
